@@ -318,9 +318,42 @@ func verifyFunc(prog *Program, fi *FuncInfo, fc *FuncContract, mode *ModeDef) (r
 		key := x.effectKey(ef.Var)
 		x.setHeap(final, key, x.coerceGhost(v.V, key, final))
 	}
+	// replayable (pure) functions: the same clauses over free result constants, for checking real outputs
+	var ri *replayInfo
+	var envR *SpecEnv
+	if fc.Opts["replay"] != "" && x.vc.silent == 0 {
+		ri = &replayInfo{Func: fi.Obj.Name(), Pkg: fi.Pkg.Name, PkgDir: filepath.Dir(prog.Fset.Position(fi.Decl.Pos()).Filename)}
+		if sig.Recv() != nil {
+			ri.Recv = &replayVal{Name: "recv", GoType: types.TypeString(sig.Recv().Type(), func(p *types.Package) string { return "" }), V: recv}
+		}
+		for i := 0; i < sig.Params().Len(); i++ {
+			ri.Params = append(ri.Params, replayVal{Name: sig.Params().At(i).Name(), GoType: types.TypeString(sig.Params().At(i).Type(), func(p *types.Package) string { return "" }), V: args[i]})
+		}
+		var rvals []Value
+		for i := 0; i < sig.Results().Len(); i++ {
+			rv := x.freshValue(sig.Results().At(i).Type(), "R")
+			rvals = append(rvals, rv)
+			ri.Results = append(ri.Results, replayVal{Name: fmt.Sprintf("r%d", i), GoType: types.TypeString(sig.Results().At(i).Type(), func(p *types.Package) string { return "" }), V: rv})
+		}
+		envR = x.contractEnv(fc, fi, sig, recv, args, rvals, x.entry, x.entry)
+	}
 	for _, en := range fc.Ensures {
-		for _, g := range x.specConjuncts(en.Expr, envF) {
+		parts := x.specConjuncts(en.Expr, envF)
+		var rparts []goalPart
+		if envR != nil {
+			func() {
+				defer func() { recover() }()
+				rparts = x.specConjuncts(en.Expr, envR)
+			}()
+		}
+		for gi, g := range parts {
+			n0 := len(x.vc.obls)
 			x.assert(final, "post", g.label(en.Label), g.t, en.Tags, fi.Decl.End())
+			if len(x.vc.obls) > n0 && gi < len(rparts) && len(rparts) == len(parts) {
+				t := rparts[gi].t
+				x.vc.obls[n0].ReplayGoal = &t
+				x.vc.obls[n0].Replay = ri
+			}
 		}
 	}
 	x.assert(final, "vacuity", "false must not be provable at exit", tFalse, nil, fi.Decl.End())
